@@ -150,6 +150,7 @@ SnapGrid(grid, sg) == LET S == {i \in 1..Len(grid) : Near32(sg, grid[i])} IN
 RECURSIVE MinOrd(_, _, _)
 MinOrd(v, i, best) == IF i > Len(v) THEN best ELSE MinOrd(v, i + 1, RMin(best, v[i]))
 TieBand == "1000001/1000000"
+NoisyBand == "101/100"      \* selection among candidates within 1 % where the fit term is only known to ~1e-4 (see VSelect)
 \* curves for the symmetric V-curve: plain PLS at every grid value
 PlsCurves(y, wts, grid) == Mat([i \in 1..Len(grid) |-> Solve(y, wts, Lam(grid[i]))])
 \* curves for the asymmetric V-curve: expectile fixed points certified from the logged final
@@ -163,13 +164,21 @@ VSelect(y, wts, grid, curves, lopt) ==
     IF \E i \in 1..Len(curves) : curves[i] = <<>> THEN <<"SKIP", "sweep-not-converged-at-some-grid-value", "">>
     ELSE LET fits == Mat([i \in 1..Len(grid) |-> FitOf(y, wts, curves[i])])
              pens == Mat([i \in 1..Len(grid) |-> PenOf(curves[i])])
-         IN  IF \E i \in 1..Len(grid) : fits[i] = "0" \/ pens[i] = "0" \/ RLt(RDiv(fits[i], RMax("1", FitOf(y, wts, Zeros(Len(y))))), "1/1000000000000")
+             \* share of the fit term in the total sum of squares.  A float64 residual y - z carries an absolute error of a few
+             \* ulp of |y|, so a fit term at a share s is known to the code only to about 1e-15 / sqrt(s) relative: below 1e-22
+             \* the criterion is rounding noise (SKIP); between 1e-22 and 1e-12 (ladders reaching down to lambda ~ 1e-10) it is
+             \* accurate to 1e-4 or better and selection is judged with the wider tie band NoisyBand; above 1e-12 with TieBand.
+             tot  == RMax("1", FitOf(y, wts, Zeros(Len(y))))
+             low(i, thr) == RLt(RDiv(fits[i], tot), thr)
+         IN  IF \E i \in 1..Len(grid) : fits[i] = "0" \/ pens[i] = "0" \/ low(i, "1/10000000000000000000000")
              THEN <<"SKIP", "degenerate-criterion", "">>
              ELSE LET kk == MidIndex(grid, lopt) IN
                   IF kk = 0 THEN <<"REJECT", "Midpoint", RShow(RLog10(lopt))>>
                   ELSE LET v == Mat([i \in 1..(Len(grid) - 1) |-> VOrd(fits, pens, grid, i)])
-                           mn == MinOrd(v, 2, v[1]) IN
-                       IF RLe(v[kk], RMul(mn, TieBand)) THEN <<"ACCEPT", "", ToString(kk)>>
+                           mn == MinOrd(v, 2, v[1])
+                           noisy == \E i \in 1..Len(grid) : low(i, "1/1000000000000")
+                           band == IF noisy THEN NoisyBand ELSE TieBand IN
+                       IF RLe(v[kk], RMul(mn, band)) THEN <<"ACCEPT", "", IF noisy THEN "noisy-band" ELSE ToString(kk)>>
                        ELSE <<"REJECT", "VMin", ToString(kk)>>
 
 \* uniform ascending grid?
